@@ -44,6 +44,11 @@ EXPLANATION = (
     "as a guard that raises. Whether the validator's checks are sufficient "
     "(value-level reasoning) is not decided.")
 
+EXPLANATION += (
+    ' Added after the seeded rounds: the tree builder records every '
+    'parent-child link of every row (R-COVER, no early exit).'
+)
+
 RULE_TEXT = (
     "one obligation per constructor path, per attribute-assignment site, "
     "per mutation candidate, per helper parameter, per accessor x caller, "
